@@ -235,6 +235,18 @@ def tagging_serialize(E):
     E.prove('tags:accepts_only_tags_up_to_255', z3.And([t.len_term() <= 255 for t in tags]) if tags else True)
     E.prove('tags:each_tag_is_length_byte_then_tag_in_order', beq(E, out, W.cat(*[enc_tag(t) for t in tags]) if tags else b'', 'tg'))
     E.prove('tags:routing_mime_type', lift_bytes(r.attrs['encoding']).conc == b'message/x.rsocket.routing.v0')
+    # the encoding is a function of the item's CURRENT tags - not of what the same object encoded or decoded before
+    t2 = E.fresh_bytes('other-tag', 0, 255)
+    E.setattr(r, 'tags', [t2] + list(tags[:1]))
+    out2 = E.call(E.getattr(r, 'serialize'), [])
+    E.prove('tags:re-encoding_after_the_tags_changed_encodes_the_new_tags[no stale result]',
+            beq(E, out2, W.cat(*[enc_tag(t) for t in ([t2] + list(tags[:1]))]), 'tg2'))
+    wire = W.cat(enc_tag(E.fresh_bytes('decoded-tag', 0, 255)), enc_tag(t2))
+    saved = E.loop_specs.pop((TG + '.parse', 0), None)
+    E.unroll_limit = 4
+    E.call(E.getattr(r, 'parse'), [wire])
+    out3 = E.call(E.getattr(r, 'serialize'), [])
+    E.prove('tags:decode_then_encode_on_an_item_that_was_encoded_before_reproduces_the_decoded_bytes', beq(E, out3, wire, 'tg3'))
 
 
 TP = TG + '.parse'
